@@ -1,6 +1,11 @@
 /-
 Line-protocol driver for the unpack half of C06.
 request : up <entry;entry;...>          entry = <t>:<hexname>:<cid>:<hexlink>, t in r l h d o   (harness/cmd/c06gen/main.go)
+          upc <retain 0|1>,<errReturn 0|1>,<MaxPass>,<MaxFileBytes> <A|N|P<hex,hex,…>> <entry;…>
+              the same with an UnpackerConfig (MaxPass ≤ 0: 3; MaxFileBytes ≤ 0: 1 TB, as NewUnpacker does) and a requirer
+              (all / none / these path strings); `up` = `upc 1,0,3,1073741824 A`.  The process's working directory holds
+              a, c, b/a, b/c, target, secret with the contents 90 … 95 (model: below @cwd/w/w/w/w).
+          upx <k> <cfg> <req> <entry;…>     the tarball is cut inside its k-th entry (0-based): the unpacker returns an error
 reply   : err=<0|1> snap=<items> contained=<0|1> out=<0|1> links=<0|1> h=<0|1>
   snap      : every object of the sandbox except the 30 chain directories, as the harness prints it
   contained : the specification `Contained` evaluated on the model's final state (out = nothing outside changed,
@@ -15,11 +20,16 @@ def chain : Path := List.replicate depth "n"
 def sbP : Path := chain ++ ["sb"]
 def D : Path := sbP ++ ["target"]
 
+def cwdP : Path := ["@cwd", "w", "w", "w", "w"]
+
 def fs0 : FS :=
   let dirs : List Path := (List.range (depth + 1)).map (fun k => List.replicate k "n") ++ [sbP, D, sbP ++ ["target-evil"]]
+    ++ (List.range 5).map (fun k => cwdP.take (k + 1)) ++ [cwdP ++ ["b"]]
   let s : FS := ⟨fun _ => none, []⟩
   let s := dirs.foldl (fun s p => s.put p .dir) s
-  s.put (sbP ++ ["secret"]) (.file 0)
+  let s := s.put (sbP ++ ["secret"]) (.file 0)
+  [(["a"], 90), (["c"], 91), (["b", "a"], 92), (["b", "c"], 93), (["target"], 94), (["secret"], 95)].foldl
+    (fun s (x : Path × Nat) => s.put (cwdP ++ x.1) (.file x.2)) s
 
 def hexS (s : String) : String := if s = "" then "-" else hexOfStr s
 def unhexS (s : String) : Option String := if s = "-" || s = "" then some "" else strOfHex s
@@ -33,7 +43,8 @@ def parseEntry (s : String) : Option TarEntry :=
       let dpath := "@R@/" ++ String.join (List.replicate depth "n/") ++ "sb/target"
       let link := (link0.replace "@D@" ("/" ++ dpath)).replace "@d@" dpath
       let typ := if c = 'h' then 'l' else c          -- hard links are unpacked as symbolic links
-      some ⟨typ, GoPath.isAbs name, GoPath.comps name, cid, GoPath.isAbs link, GoPath.comps link, link⟩
+      -- the harness writes the body "c<cid>"
+      some ⟨typ, GoPath.isAbs name, GoPath.comps name, cid, GoPath.isAbs link, GoPath.comps link, link, if c = 'r' then 1 + (toString cid).length else 0⟩
     | _, _, _, _ => none
   | _ => none
 
@@ -46,6 +57,7 @@ def targetStr (t : Target) : String := if t.abs then "/" ++ relStr (D ++ t.comps
 def snapshot (s : FS) : String :=
   let items := s.keys.eraseDups.filterMap fun p =>
     if p.length ≤ depth && p == List.replicate p.length "n" then none else
+    if p.head? == some "@cwd" then none else
     match s.get p with
     | some .dir => some (hexS (relStr p) ++ "=d")
     | some (.file c) => some (hexS (relStr p) ++ s!"=f{c}")
@@ -53,14 +65,36 @@ def snapshot (s : FS) : String :=
     | none => none
   joinWith "," (sortNames items)
 
+def dirText : String := "/@R@/" ++ String.join (List.replicate depth "n/") ++ "sb/target"
+
+def parseCfg (c r : String) : Option Cfg :=
+  match c.splitOn ",", (if r = "A" then some Req.all else if r = "N" then some Req.none
+                        else if r.startsWith "P" then ((listOf (r.drop 1).toString ",").mapM unhexS).map (fun ps => Req.paths (ps.map fun q => q.replace "@D@" dirText)) else none) with
+  | [a, b, mp, mb], some req =>
+    match a.toNat?, b.toNat?, mp.toInt?, mb.toInt? with
+    | some a, some b, some mp, some mb =>
+      some ⟨a == 1, b == 1, if mp > 0 then mp.toNat else 3, if mb > 0 then mb.toNat else 1024 * 1024 * 1024 * 1024, req, dirText, cwdP⟩
+    | _, _, _, _ => none
+  | _, _ => none
+
+def run (cfg : Cfg) (es : String) (cut : Option Nat := none) : String :=
+  match (listOf es ";").mapM parseEntry with
+  | some es =>
+    let (s, ok) := match cut with | some k => unpackAllCut cfg D fs0 es k | none => unpackAllC cfg D fs0 es
+    s!"err={boolStr (!ok)} snap={snapshot s} contained={boolStr (containedB D fs0 s)} out={boolStr (outsideUnchangedB D fs0 s)} links={boolStr (linksInsideB D s)} h={boolStr (noDotDotTargets es)}"
+  | none => "bad-op"
+
 def handle (line : String) : String :=
   match line.splitOn " " with
-  | ["up", es] =>
-    match (listOf es ";").mapM parseEntry with
-    | some es =>
-      let (s, ok) := unpackAll D fs0 es
-      s!"err={boolStr (!ok)} snap={snapshot s} contained={boolStr (containedB D fs0 s)} out={boolStr (outsideUnchangedB D fs0 s)} links={boolStr (linksInsideB D s)} h={boolStr (noDotDotTargets es)}"
+  | ["up", es] => run { Cfg.dflt with dirStr := dirText, cwd := cwdP } es
+  | ["upc", c, r, es] =>
+    match parseCfg c r with
+    | some cfg => run cfg es
     | none => "bad-op"
+  | ["upx", k, c, r, es] =>
+    match parseCfg c r, k.toNat? with
+    | some cfg, some k => run cfg es (some k)
+    | _, _ => "bad-op"
   | _ => "bad-op"
 
 def main : IO Unit := serve handle
